@@ -86,6 +86,8 @@ def gen_plan(S, index, tier):
         sp, where, val = SP.poison(S, sp)
         poisoned = [where, val]
     pool = {'P0': {'kind': 'ann', 'via': S.pick(['parse', 'create']), 'spec': sp}}
+    if pool['P0']['via'] == 'create':
+        pool['P0']['order'] = SP.gen_order(S, sp)
     n = len(sp['seq'])
     events = []
     open_l = []
@@ -367,6 +369,13 @@ def _do_lazy(run, ev_i, ev):
             break
         out.record([ev_i, k, N.norm(item)])
         lz['k'] += 1
+        # the protein must be as before after every single item, also inside a drain (a temporary edit that is
+        # put back at exhaustion is visible to whoever looks in between)
+        d = N.same(run.p_nf, N.norm_ann(run.p))
+        if d is not None:
+            if run.violation('ARG', opname, 'protein', f"ARG: producing item {k} of {opname}(return_type={lz['rt']!r}) "
+                                                        f"changed the shared protein: {d}", ev_i):
+                return True
         if k >= len(lz['spans']):
             if run.violation('TYPES', opname, 'count', f"TYPES: {opname}(return_type={lz['rt']!r}) yields more items "
                                                        f"than return_type='span' ({len(lz['spans'])})", ev_i):
